@@ -476,6 +476,22 @@ def drain (body : Body) : Nat → TrapMap → Int → List (Nat × Nat) → RunR
 def runTrapsForCaughtSignals (body : Body) (inTrap : Bool) (t : TrapMap) (exit : Int) : RunResult :=
   if inTrap then { traps := t, exit := exit, runs := [] } else drain body (t.length + 1) t exit []
 
+/-- `Env::sigint_has_default_action` -/
+def sigintHasDefaultAction (t : TrapMap) : Bool :=
+  match (getState t SIGINT).1 with
+  | none => true
+  | some ts => ts.action = .default
+
+/-- `run_traps_for_caught_signals` from its first line: `polled` are the signals `poll_signals`
+    has just collected (already handed to `catch_signal`); a SIGINT among them with no user trap
+    interrupts at once (`ExitStatus::from(SIGINT)` = 384 + 2), even inside a trap -/
+def runTrapsAfterPoll (body : Body) (inTrap : Bool) (polled : List Nat) (t : TrapMap) (exit : Int)
+    : RunResult :=
+  let t1 := polled.foldl catchSignal t
+  if polled.contains SIGINT ∧ sigintHasDefaultAction t1 then
+    { traps := t1, exit := exit, runs := [], divert := some (.interrupt (some (384 + SIGINT))) }
+  else runTrapsForCaughtSignals body inTrap t1 exit
+
 /-- successive command boundaries (`$?` at each boundary is whatever the commands in between left) -/
 def boundaries (body : Body) : List Int → TrapMap → List (Nat × Nat) → TrapMap × List (Nat × Nat)
   | [], t, runs => (t, runs)
